@@ -39,7 +39,8 @@ KNOWN_HERE = ["member-url-lost-after-compaction"]
 def snaprace(R, binary):
     """engine snaprace (harness/snaprace.go, hook H4): the REAL publishEntries / maybeTriggerSnapshot / saveSnap of a RaftNode without raft, fed batches of
     committed entries with and without commands while the state machine applies each batch after a random delay; a snapshot at index i must hold exactly
-    the commands of the entries up to i (a snapshot never loses acknowledged writes, at the place where the image is taken)"""
+    the commands of the entries up to i (a snapshot never loses acknowledged writes, at the place where the image is taken); in every third scenario membership-change
+    entries sit between the commands of one Ready, and in all of them the state machine must have been handed exactly the commands of the log, once, in log order"""
     import json
     n = 120 if R.tier == "quick" else 3000
     env = core.goenv()
